@@ -46,6 +46,11 @@ ALL_CELLS = len(SWEEP) * 5   # x preceding event {none, overwrite-shorter, overw
 class World(object):
     def __init__(self):
         self.dir = tempfile.mkdtemp(prefix="verif-c16-")
+        self.alias = self.dir + "-alias"          # a second name for the same directory
+        try:
+            os.symlink(self.dir, self.alias)
+        except OSError:
+            self.alias = self.dir
         self.model = {}
         self.prev = {}     # path -> preceding event class
         self.stats = {"steps": 0, "ops": {}, "faults": {}, "cells": set(), "kindseq": set(), "nontrivial": 0,
@@ -95,6 +100,7 @@ class C16(Profile):
             "length": rng.randint(3, 32 if thorough else 14),
             "n_max": 1024 if (thorough and rng.random() < 0.1) else 256,
             "n_files": rng.choice([1, 1, 2, 3]),
+            "p_huge": 0.15 if rng.random() < (0.12 if thorough else 0.08) else 0.0,
         }
         cfg["max_steps"] = cfg["length"] + 4
         return cfg
@@ -106,6 +112,11 @@ class C16(Profile):
         return w
 
     def close_world(self, world):
+        try:
+            if world.alias != world.dir:
+                os.unlink(world.alias)
+        except OSError:
+            pass
         shutil.rmtree(world.dir, ignore_errors=True)
         st = world.stats
         if world.hit:
@@ -127,6 +138,20 @@ class C16(Profile):
             return world.dir + "//" + name
         if sp == 3:
             return os.path.join(world.dir, "..", os.path.basename(world.dir), name)
+        if sp == 4:
+            return os.path.join(world.alias, name)                  # through a symbolic link to the directory
+        if sp == 5:
+            hard = os.path.join(world.dir, "hl-" + name)             # a hard link to the file, made once it exists
+            real = os.path.join(world.dir, name)
+            if not os.path.exists(hard):
+                if os.path.exists(real):
+                    try:
+                        os.link(real, hard)
+                    except OSError:
+                        return real
+                else:
+                    return real
+            return hard
         return os.path.join(world.dir, name)
 
     def _exec(self, world, op):
@@ -413,8 +438,8 @@ class Gen(object):
         def load(fault=None):
             op = {"op": "load", "f": "f0", "via": sw["load"]}
             if sw["m"]:
-                op["m"] = rng.choice([2.0, -0.5, 1e-3, 9.81])
-            fl = {"kind": "K11"} if sw["branch"] == "fallback" else None
+                op["m"] = rng.choice([2.0, -0.5, 1e-3, 9.81, 1.000004, 0.999992, -1.0])
+            fl = {"kind": "K11", "when": rng.choice(["before", "after"])} if sw["branch"] == "fallback" else None
             if fault:
                 if fl:
                     fl["then"] = fault
@@ -455,14 +480,14 @@ class Gen(object):
                 op.pop("fault", None)
             else:
                 op = self.g_save(f)
-                if rng.random() < 0.15:
-                    op["spell"] = rng.choice([1, 2, 3])
+                if rng.random() < 0.2:
+                    op["spell"] = rng.choice([1, 2, 3, 4, 4, 5, 5])
             self.saved.setdefault(f, []).append({k: v for k, v in op.items() if k != "fault"})
             self.saved[f] = self.saved[f][-3:]
         else:
             op = self.g_load(world, f)
-            if rng.random() < 0.1:
-                op["spell"] = rng.choice([1, 2, 3])
+            if rng.random() < 0.15:
+                op["spell"] = rng.choice([1, 2, 3, 4, 4, 5, 5])
         if self.cfg["faults_on"] and self.last_faulted != f:
             self._maybe_fault(op)
             if op.get("fault"):
@@ -474,7 +499,10 @@ class Gen(object):
     def _values(self):
         rng = self.rng
         r = rng.random()
-        if r < 0.12:
+        if rng.random() < self.cfg.get("p_huge", 0.0):
+            # longer than the usual I/O buffer sizes (8 KiB is about 900 samples, 64 KiB about 7 000)
+            n = rng.choice([rng.randint(800, 1000), rng.randint(6500, 7500), rng.randint(13000, 14500), rng.randint(2000, 20000)])
+        elif r < 0.12:
             n = 1
         elif r < 0.2:
             n = 2
@@ -525,7 +553,7 @@ class Gen(object):
         via = rng.choice(LOAD_VIA)
         op = {"op": "load", "f": f, "via": via}
         if via in ("load_sig", "load_asig", "load_asig:label") and rng.random() < 0.5:
-            op["m"] = rng.choice([2.0, -0.5, 1e-3, 9.81, 1.0])
+            op["m"] = rng.choice([2.0, -0.5, 1e-3, 9.81, 1.0, 1.000004, 0.999992, -1.0, 1.0000001, 100.0, 0.1])
         return op
 
     def _maybe_fault(self, op):
@@ -542,7 +570,7 @@ class Gen(object):
             return
         r = rng.random()
         if r < self.cfg["fallback_bias"]:
-            fl = {"kind": "K11"}
+            fl = {"kind": "K11", "when": rng.choice(["before", "after"])}
             if rng.random() < self.cfg["fault_rate"] * 0.5:
                 fl["then"] = self._read_fault()
             op["fault"] = fl
